@@ -2,6 +2,7 @@ import OpusProofs.SilkSymsDecode
 import OpusProofs.SilkSymsHistory
 import OpusProofs.SilkSymsLag
 import OpusProofs.CeltSymsHeader
+import OpusProofs.SilkSymsJ2
 /-
   Property C03 — "decoder output conforms to the RFC 6716 reference decoder", bit-stream half, stage 1:
   the SILK symbol layer.  `Opus.SilkSyms.decodePacket` (OpusModel/SilkSyms.lean) is the frozen normative
@@ -171,6 +172,31 @@ example : (match CeltSyms.celtOnlyHeader 1105 2 960
              [0x5a, 0xc3, 0x17, 0x88, 0x3e, 0xf1, 0x02, 0x9b, 0x64, 0xd5, 0x2c, 0x71, 0xae, 0x0f, 0x93, 0x48,
               0x5a, 0xc3, 0x17, 0x88, 0x3e, 0xf1, 0x02, 0x9b, 0x64, 0xd5, 0x2c, 0x71, 0xae, 0x0f, 0x93, 0x48] with
            | .ok h => decide (h.coarse.length = 42 ∧ h.trace.length ≥ 60) | _ => false) = true := by decide +kernel
+
+open Opus.CeltSyms Opus.CeltSymsProofs in
+/-- The hybrid hand-over is unconditional: whatever the bytes, the decoder history and the configuration are, the
+    range-decoder state `opus_decode_frame` is left with after the SILK data and the redundancy header of a frame
+    (`decodeOpusFrame … = .ok o`, any mode) satisfies `J` — every SILK table is made of strictly decreasing
+    zero-terminated runs, so no `ec_dec_icdf` can leave `rng` outside `(2^23, 2^31]` — and therefore the CELT header
+    of a hybrid frame decodes from it (no laplace.c assertion) with every field legal, for every length that
+    `opus_decode_frame` may pass on. -/
+theorem celtHdr_hybrid_total_in_range (mode bandwidth nCh frameMs10 spf48 len : Nat) (decodeFec : Bool) (st : SilkSt)
+    (frame : Bytes) (o : FrameOut) (h : decodeOpusFrame mode bandwidth nCh frameMs10 decodeFec st frame = .ok o) :
+    J o.dec ∧ ∃ hd, hybridHeader bandwidth nCh spf48 len o.dec = .ok hd ∧
+      HdrOk { start := 17, end_ := endBandOf bandwidth, C := nCh, LM := lmOf spf48 } hd := by
+  have hj := decodeOpusFrame_J mode bandwidth nCh frameMs10 decodeFec st frame o h
+  refine ⟨hj, ?_⟩
+  unfold hybridHeader
+  exact celtHeader_ok _ (by unfold lmOf; dsimp only; split <;> (try split) <;> (try split) <;> omega) _ _ hj
+
+/-- non-vacuity: a 20 ms mono super-wide-band hybrid frame of arbitrary bytes — the SILK layer, the redundancy header
+    and then a CELT header with 2 coarse-energy symbols (bands 17, 18) read from the handed-over state -/
+example : (match decodeOpusFrame 1001 1104 1 200 false {}
+             [0x5a, 0xc3, 0x17, 0x88, 0x3e, 0xf1, 0x02, 0x9b, 0x64, 0xd5, 0x2c, 0x71, 0xae, 0x0f, 0x93, 0x48,
+              0x5a, 0xc3, 0x17, 0x88, 0x3e, 0xf1, 0x02, 0x9b, 0x64, 0xd5, 0x2c, 0x71, 0xae, 0x0f, 0x93, 0x48] with
+           | .ok o => (match CeltSyms.hybridHeader 1104 1 960 o.len.toNat o.dec with
+                       | .ok hd => decide (hd.coarse.length = 2 ∧ o.evs.length ≥ 3) | _ => false)
+           | _ => false) = true := by decide +kernel
 
 /-- The frozen tables of the CELT header model (energy probability model, small-energy / trim / spread / tapset ICDFs,
     `tf_select_table`, band edges, allocation caps) equal the tables regenerated from `/repo` on this run. -/
